@@ -40,10 +40,17 @@ def labels(n, m, scheme, rng=None):
         rng.shuffle(o)
         rng.shuffle(p)
         return o, p
+    if scheme == 'confusable':
+        # labels that differ only by case, Unicode normalisation form, padding or look like
+        # numbers / keywords - and the empty string (a legal label)
+        pool_o = ['a', 'A', '\u00e9', 'e\u0301', '1', '01', ' 1', 'True', 'None', '', 'ß', 'SS', 'ss', 'ǅ', 'ǆ', '١']
+        pool_p = ['x', 'X', '\u00f1', 'n\u0303', '0', '00', '0 ', 'False', 'none', 'İ', 'i', 'I', 'ı', '２', '2', 'null']
+        return ([pool_o[i] if i < len(pool_o) else f'o{i}' for i in range(n)],
+                [pool_p[j] if j < len(pool_p) else f'p{j}' for j in range(m)])
     raise ValueError(scheme)
 
 
-SCHEMES = ['rev', 'shuffled', 'shared', 'unicode', 'plain']
+SCHEMES = ['rev', 'shuffled', 'shared', 'unicode', 'plain', 'confusable']
 
 
 def case(fam, rows, m, scheme, rng=None, n=None):
@@ -61,7 +68,7 @@ def exh(kn, km, sizes=None):
     sizes = sizes or [(n, m) for n in range(1, kn + 1) for m in range(1, km + 1)]
     for n, m in sizes:
         for rows in itertools.product(range(1 << m), repeat=n):
-            yield case(f'EXH{n}x{m}', rows, m, SCHEMES[k % 3])
+            yield case(f'EXH{n}x{m}', rows, m, SCHEMES[k % 3] if k % 7 else 'confusable')
             k += 1
 
 
